@@ -38,11 +38,20 @@ def _norm(v):
     return v          # values are compared by identity first, then by type and equality (models.dispatch._veq)
 
 
-def run(prefix, ops, wcfgs, allowed_ops, act, slot_w=False, dev_check=True):
+def run(prefix, ops, wcfgs, allowed_ops, act, slot_w=False, dev_check=True, level=0):
     """ops: list of (opcode, x) symbolic; wcfgs: list of (nidx, onlychanged, queued, precedence, kwmode) symbolic;
     act: bool, watcher 1 assigns b := a + 1 when it is told about a."""
     with untraced():
-        p = P()
+        if level == 1:
+            # class-level watchers and assignments: a fresh class per path (class-level state is global)
+            class PL(param.Parameterized):
+                a = param.Integer(default=0)
+                b = param.Integer(default=0)
+                u = param.Parameter(default=None)
+                e = param.Event()
+            p = PL
+        else:
+            p = P()
     snapf = lambda m: (m.values['a'], m.values['b'], _norm(m.values['u']))
     init = {'a': 0, 'b': 0, 'u': None, 'e': False}
     models = {'stmt': Model(init, {('a', 'softbounds'): None}, snap=snapf, events=('e',))}
